@@ -5,7 +5,7 @@ from .algo_eval import Evaluator, is_library_exc
 from .relang import DFA
 from .srcmodel import AnalysisError
 from .values import SStr, Sym
-from .vmodel import S_TERM, call_concrete, call_kind, classify, eval_sym, expansion_call, holds, numerify_arg, term_segments
+from .vmodel import S_TERM, call_concrete, call_kind, classify, const_digit_suffix, eval_sym, expansion_call, holds, numerify_arg, residue_modulus, term_segments
 from .vrules import accept_language, consistent, describe_valuation, semantic, valuations
 
 
@@ -129,6 +129,9 @@ def rule_numerify(m, report, name):
         f = m.prog.get(q)
         short = f.short
         kind = call_kind(q)
+        mod = residue_modulus(q) if kind == "int" else None
+        if mod:
+            r.instance({"function": short, "returns": f"the remainder modulo {mod} of the expansion, not the number"})
 
         def value(o):
             if o.kind != "return":
@@ -141,15 +144,21 @@ def rule_numerify(m, report, name):
         for c, v in ref.items():
             got = value(call_concrete(m.facts, q, c))
             r.instance({"function": short, "char": c, "value": got} if c in "09AZ" else None)
-            if got != v or isinstance(got, bool):
+            if got != (v % mod if mod else v) or isinstance(got, bool):
                 r.finding(f"numerify[{c}]", f"{short}({c!r}) is {got!r}, ISO 13616 assigns {v}", f.where, witness=c)
         probes = ["10", "A0", "0A", "AZ", "ZA", "1A2B", "Z9Z", "00A", "B1C2D3", "9Z8Y7X"]
+        # every length an IBAN can have, all letters (two digits each: the longest expansions) and mixed - a table or buffer sized for
+        # "typical" texts shows here
+        probes += ["Z" * k for k in range(3, 35)] + [("9Z8Y7X6W5V" * 4)[:k] for k in (15, 22, 28, 31, 34)] + [("A1" * 17)[:k] for k in (33, 34)]
         for s_ in probes:
             want = int("".join(str(ref[c]) for c in s_))
+            if mod:
+                want %= mod
             got = value(call_concrete(m.facts, q, s_))
             r.instance(None)
             if got != want:
-                r.finding("numerify:concatenation", f"{short}({s_!r}) is {got!r}; decimal concatenation in text order gives {want}", f.where, witness=s_)
+                r.finding("numerify:concatenation", f"{short}({s_!r}) is {got!r}; decimal concatenation in text order gives {want}" + (f" (modulo {mod})" if mod else "")
+                          + (f" — the text expands to {len(''.join(str(ref[c]) for c in s_))} digits" if len(s_) > 6 else ""), f.where, witness=s_)
                 break
 
 
@@ -236,7 +245,10 @@ def _is_the_number(v):
     if expansion_call(v) is None:
         return False
     try:
-        return all(eval_sym(v, n) == n and not isinstance(eval_sym(v, n), bool) for n in (0, 1, 96, 97, 98, 10 ** 30 + 7))
+        c = expansion_call(v)
+        mod = residue_modulus(c.args[0]) if call_kind(c.args[0]) == "int" else None
+        # a string function that hands out the remainder stands for N mod M: the term must be exactly that
+        return all(eval_sym(v, n) == (n % mod if mod else n) and not isinstance(eval_sym(v, n), bool) for n in (0, 1, 96, 97, 98, 10 ** 30 + 7))
     except AnalysisError:
         return False
 
@@ -319,7 +331,10 @@ def rule_from_bban(m, report, name):
         digits = parts[1]
         arg = numerify_arg(digits)
         r.instance({"digits over": repr(arg)})
-        if not (isinstance(arg, SStr) and arg.term == ("concat", ("S", "bban"), ("S", "cc"))):
+        term = arg.term if isinstance(arg, SStr) else None
+        if term and const_digit_suffix(arg) == "00" and len(term) == 4:
+            term = term[:-1]     # "00" appended to the text instead of multiplying the number by 100 (eval_sym accounts for it)
+        if term != ("concat", ("S", "bban"), ("S", "cc")):
             r.finding("IBAN.from_bban:input", f"check digits are computed over {arg!r}; the validator recomputes them over BBAN + country code", f.where)
         bad = None
         for n in list(range(0, 9800)) + [10 ** 30 + 7]:
